@@ -331,7 +331,7 @@ func listWorkload(c *Ctx, n int, withMutants bool, f func(entry, input string)) 
 		byKind["statements"] = append(byKind["statements"], cc)
 	}
 	seps := []string{";", " ; ", ";\n", "\n;\n", ";;", "; ;", ";/*c*/", "/*c*/;", "; -- c\n", "\n-- c;\n;", ";/* ; */", "; # ;\n", ";\t", " ;\r\n", ";-- x\n--y\n", "\n;/*a*//*b*/\n"}
-	extras := []string{"SELECT 1,", "SELECT a, b,", "SELECT ';'", "SELECT \"a;b\"", "SELECT `a;b` FROM t", "SELECT 1 /* ; */", "SELECT 1 -- ;\n", "SELECT ''';\n;'''", "SELECT r';\\''", "SELECT 1,\n", "SELECT * FROM t,", "SELECT 1, -- c\n"}
+	extras := []string{"SELECT 1,", "SELECT a, b,", "SELECT ';'", "SELECT \"a;b\"", "SELECT `a;b` FROM t", "SELECT 1 /* ; */", "SELECT 1 -- ;\n", "SELECT ''';\n;'''", "SELECT r';\\''", "SELECT 1,\n", "SELECT * FROM t,", "SELECT 1, -- c\n", "FROM t |> SELECT a,", "FROM t |> SELECT a, b, ", "SELECT 1 |> SELECT a,", "SELECT 1 |> WHERE a |> SELECT DISTINCT a, b,", "CREATE VIEW v SQL SECURITY INVOKER AS SELECT a,", "INSERT INTO t (a) SELECT 1,", "FROM t", "FROM t |> WHERE a", "(SELECT 1)", "SELECT 1 UNION ALL SELECT 2,", "WITH a AS (SELECT 1) SELECT 2,", "SELECT AS STRUCT 1,", "@{a=1} SELECT 1,"}
 	ns := max(c.NShards, 1)
 	r := gen.NewRand(c.Seed, 1100+uint64(c.Shard))
 	kinds := []string{"statements", "statements", "ddls", "dmls"}
